@@ -8,9 +8,8 @@ Local Open Scope N_scope.
 
 Definition cls_code (c : option cls) : N :=
   match c with
-  | None => 0 | Some CCommaSet => 1 | Some CStar => 2 | Some CReversedRange => 3 | Some CParenGroup => 4
-  | Some CNotOrArity => 5 | Some CUnknownKey => 6 | Some CTextAtom => 8
-  | Some CUidSingle => 9 | Some CUidIgnoresKeys => 10 | Some CQuotedSpace => 11
+  | None => 0 | Some CUnknownKey => 6 | Some CTextAtom => 8
+  | Some CQuotedSpace => 11
   end.
 
 Definition ob_eqb (a b : option bool) : bool :=
@@ -35,15 +34,15 @@ Definition mk_code (model_diff spec_diff : bool) (c : option cls) (print_diff : 
 Definition ecase := (list key * str * Z * Z * Z * smsg * option bool)%type.
 Definition eval_case_code (c : ecase) : N :=
   let '(ks, text, nseq, maxuid, i, m, impl) := c in
-  let model := eval_tokens go_text (to_msg (i, m)) (parse_search_tokens text) in
-  let spec_diff := forallb supported ks && negb (ob_eqb impl (Some (spec_all nseq maxuid ks i m))) in
+  let model := eval_tokens go_text (to_msg_in nseq maxuid (i, m)) (parse_search_tokens text) in
+  let spec_diff := wf_prog ks && forallb supported ks && negb (ob_eqb impl (Some (spec_all nseq maxuid ks i m))) in
   mk_code (negb (ob_eqb model impl)) spec_diff (classify ks [m]) (negb (str_eqb (print_prog ks) text)).
 
 (** raw criteria (no AST): model against implementation only *)
 Definition rcase := (str * Z * smsg * option bool)%type.
 Definition raw_case_code (c : rcase) : N :=
   let '(text, i, m, impl) := c in
-  if ob_eqb (eval_tokens go_text (to_msg (i, m)) (parse_search_tokens text)) impl then 0 else 1.
+  if ob_eqb (eval_tokens go_text (to_msg_in 9 19 (i, m)) (parse_search_tokens text)) impl then 0 else 1.
 
 (** session: SEARCH / UID SEARCH command against a mailbox *)
 Definition scase := (list key * str * bool * reply)%type.
@@ -52,10 +51,10 @@ Definition session_case_code (mb : list smsg) (c : scase) : N :=
   let '(ks, text, uid_mode, impl) := c in
   let parts := if uid_mode then tag_ :: S_ "UID" :: S_ "SEARCH" :: fields text
                else tag_ :: S_ "SEARCH" :: fields text in
-  let model := if uid_mode then handle_uid_search parts (to_msgs mb) else search_cmd parts (to_msgs mb) in
+  let model := if uid_mode then uid_search_cmd parts (to_msgs mb) else search_cmd parts (to_msgs mb) in
   let spec := if uid_mode then spec_uid_search ks mb else spec_search ks mb in
-  let c := if uid_mode then classify_uid_line ks else classify_line ks mb in
-  mk_code (negb (reply_eqb model impl)) (negb (reply_ok impl spec)) c (negb (str_eqb (print_prog ks) text)).
+  let c := classify_line ks mb in
+  mk_code (negb (reply_eqb model impl)) (wf_prog ks && mb_ok mb && negb (reply_ok impl spec)) c (negb (str_eqb (print_prog ks) text)).
 
 (** raw command arguments (CHARSET forms, soups): model against implementation *)
 Definition rscase := (str * bool * reply)%type.
@@ -63,7 +62,7 @@ Definition raw_session_case_code (mb : list smsg) (c : rscase) : N :=
   let '(text, uid_mode, impl) := c in
   let parts := if uid_mode then tag_ :: S_ "UID" :: S_ "SEARCH" :: fields text
                else tag_ :: S_ "SEARCH" :: fields text in
-  let model := if uid_mode then handle_uid_search parts (to_msgs mb) else search_cmd parts (to_msgs mb) in
+  let model := if uid_mode then uid_search_cmd parts (to_msgs mb) else search_cmd parts (to_msgs mb) in
   if reply_eqb model impl then 0 else 1.
 
 Fixpoint nonzero_from (i : N) (l : list N) : list N :=
